@@ -101,4 +101,22 @@ CHECKS = {
   "technique": "TLA+ table evaluated by TLC + replay into the real code generators and compiled generated code",
   "ref": "DESIGN.md 5/C17",
  },
+ "C01": {
+  "text": "AnemoIdentity is a symbolic (Dolev-Yao) model of the three verifiers and the TLS signature check; TLC checks AuthenticAsDialer / AuthenticAsListener over every certificate the adversary can build from its own key plus replays of honest certificates, every SNI, pin and configuration (the no-signature-check spec mutant is refuted). The verifier tables TLC emits (288 client rows, 576 server rows: subject key, signer, name, algorithm incl. P-256, validity, malformed DER, pins) are minted with rcgen and given to the real verifiers; 432 adversary handshakes (SNI x certificate x proof key x extra replayed certificates appended to the chain x listener names, plus no client certificate) run against real Networks on the fabric and the identity the listener lists must be the end-entity key; every single-byte mutation of a valid certificate (all 255 alternatives in the thorough tier) may only be accepted if it still names the same identity; the adversary-as-listener cases (replayed certificate with another key, own certificate, own certificate followed by the victim's) run in the C03 scenario under AnemoConnTrace (attributed identity = party really reached), and AnemoRpcTrace checks that the PeerId handlers and callers see is the connection's.",
+  "note": "Cryptographic hardness and the internals of ring/rustls/webpki are trusted; the model assumes perfect cryptography. Byte-level mutation verdicts are checked against 'still the same identity', not enumerated by TLC.",
+  "technique": "TLA+ symbolic model evaluated by TLC + replay of its decision tables into the real verifiers and real handshakes + trace validation",
+  "ref": "DESIGN.md 5/C01",
+ },
+ "C06": {
+  "text": "AnemoRpc with hostile streams (garbage, stall, reset, stop at any point; 4 calls, credit 3: 589k states) is checked for GarbageNeverInvoked, AtMostOnce, NoLeak, NoStuckCaller; a raw QUIC adversary with a valid identity connects to a real Network and opens hundreds of hostile streams per run - 15 byte classes derived from the decoder's error states (random, truncated-valid, bad magic/version/reserved, 4 GiB and 9 MiB frame prefixes, 2^64-1 string and map lengths, invalid UTF-8, mutated-valid, absurd body length, long multi-byte routes) x 6 endings (finish, reset, stop, drop, read, left open) plus unidirectional streams, datagrams and three kinds of abrupt close and reconnect - while an honest peer's calls and the adversary's own well-formed calls on sibling streams must all succeed with correct results; the recording is validated by AnemoRpcTrace and AnemoConnTrace; a panic, an abort of the process or a closed network is a violation.",
+  "note": "Malformed QUIC packets and exhaustion by volume are out of scope.",
+  "technique": "TLA+ model checking (TLC) + adversarial stream scripts against the real code + trace validation by two specifications",
+  "ref": "DESIGN.md 5/C06",
+ },
+ "C14": {
+  "text": "AnemoIdentity's name rules (Connectable, NameMismatchRejected, HonestConnects) are evaluated by TLC over all configurations of 3 names; all 144 ordered pairs of (primary, optional alternate) configurations are started as real Networks and dialed - connect succeeds and both list each other iff the dialer's primary name is one the listener accepts; 432 adversarial dials claim each name in the TLS hello while presenting certificates for each name against listeners with one and two names; the verifier-level name rows (dialled name, certificate name, pin) are replayed into the real verifiers.",
+  "note": "Exhaustive for 3 names.",
+  "technique": "TLA+ decision tables evaluated by TLC + exhaustive replay into real handshakes and verifiers",
+  "ref": "DESIGN.md 5/C14",
+ },
 }
